@@ -255,7 +255,9 @@ _PREC = {'**': 7, '*': 6, '/': 6, '%': 6, '+': 5, '-': 5, '<=': 4, '<': 4, '>=':
 
 def num_text(a):
     """source text of a non-negative exact number literal"""
-    assert a['f'] == 'q' and a['n'] >= 0, a
+    if a['f'] != 'q':
+        return repr(num_from_abs(a))
+    assert a['n'] >= 0, a
     if a['d'] == 1:
         return str(a['n'])
     return repr(a['n'] / a['d'])
